@@ -8,6 +8,7 @@ use crate::refhdr::StdHdr;
 use crate::syntax::*;
 use crate::util::*;
 use h263_rs::H263State;
+use rayon::prelude::*;
 use serde_json::json;
 use std::sync::mpsc;
 use std::sync::Arc;
@@ -116,11 +117,86 @@ pub fn scripts(seed: u64) -> Vec<Script> {
             ],
         },
         Script {
+            name: "sorenson: I, I cut after its first macroblock (rest concealed from the reference), P",
+            opts: 1,
+            calls: vec![
+                a(encode_bytes(&noise_intra(shdr(32, 16, 0, 0, 7, 0), seed ^ 8))),
+                a({
+                    let mut p = noise_intra(shdr(32, 16, 0, 1, 7, 0), seed ^ 9);
+                    p.mbs.truncate(1);
+                    encode_bytes(&p)
+                }),
+                a(p_pic(shdr(32, 16, 1, 2, 7, 0), &[Spec::NotCoded, Spec::Inter((2, 2), false)], 2)),
+            ],
+        },
+        Script {
             name: "sorenson: I 16x16, P 16x16 all-not-coded, I 32x16",
             opts: 1,
             calls: vec![a(encode_bytes(&noise_intra(shdr(16, 16, 0, 0, 12, 1), seed ^ 6))), a(encode_bytes(&Pic { hdr: shdr(16, 16, 1, 1, 12, 1), mbs: vec![Mb::NotCoded] })), a(encode_bytes(&noise_intra(shdr(32, 16, 0, 2, 12, 0), seed ^ 7)))],
         },
     ]
+}
+
+/// One-picture letters for the purity sweep: intra pictures over quantizers x level classes x
+/// sizes x stream kinds, truncated and rejected variants.
+pub fn purity_letters(seed: u64) -> Vec<(String, u8, Vec<u8>)> {
+    let mut v = vec![];
+    for &(w, h) in &[(16u16, 16u16), (32, 16), (16, 32)] {
+        for q in [1u8, 5, 16, 31] {
+            for (ln, level) in [("small", 3i16), ("mid", 50), ("large", 127)] {
+                for version in [0u8, 1] {
+                    let (mbw, mbh) = mb_grid(w, h);
+                    let mbs: Vec<Mb> = (0..mbw * mbh)
+                        .map(|i| {
+                            let mut blocks: [Blk; 6] = std::array::from_fn(|b| Blk::dc(60 + ((i * 6 + b) * 7 % 60) as u8));
+                            blocks[i % 6].ev = vec![ev_auto(true, (i % 5) as u8, if i % 2 == 0 { level } else { -level }, version == 1)];
+                            blocks[(i + 3) % 6].ev = vec![ev_auto(false, 0, 2, version == 1), ev_auto(true, 7, -1, version == 1)];
+                            Mb::Coded { kind: Kind::Intra, dquant: 0, mvd: vec![], blocks }
+                        })
+                        .collect();
+                    let pic = Pic { hdr: shdr(w, h, 0, q, q, version), mbs };
+                    v.push((format!("I {w}x{h} q{q} level-{ln} v{version}"), 1u8, encode_bytes(&pic)));
+                    if q == 31 && level == 127 {
+                        let mut t = pic.clone();
+                        t.mbs.truncate(1);
+                        let mut bytes = encode_bytes(&t);
+                        v.push((format!("I {w}x{h} q{q} cut after 1 macroblock v{version}"), 1, bytes.clone()));
+                        // rejected after stored coefficients: append a macroblock with a forbidden INTRADC in block 2
+                        bytes = {
+                            let mut wr = encode(&t);
+                            wr.put_bits(&[true, false, false, true, true]);
+                            for _ in 0..2 {
+                                wr.put(0xFA, 8);
+                            }
+                            wr.put(0, 20);
+                            wr.bytes
+                        };
+                        v.push((format!("I {w}x{h} q{q} rejected in its second macroblock v{version}"), 1, bytes));
+                    }
+                }
+            }
+        }
+    }
+    // Sorenson v1 wide levels
+    for q in [2u8, 31] {
+        for level in [600i16, -1023] {
+            let blocks: [Blk; 6] = std::array::from_fn(|b| {
+                let mut k = Blk::dc(100);
+                if b % 2 == 0 {
+                    k.ev = vec![Ev { run: b as u8, level, form: Form::Esc11 }];
+                }
+                k
+            });
+            v.push((format!("I 16x16 q{q} 11-bit level {level}"), 1, encode_bytes(&Pic { hdr: shdr(16, 16, 0, 3, q, 1), mbs: vec![Mb::Coded { kind: Kind::Intra, dquant: 0, mvd: vec![], blocks }] })));
+        }
+    }
+    // standard mode
+    for q in [3u8, 30] {
+        v.push((format!("std I 32x16 q{q}"), 0, encode_bytes(&noise_intra(Hdr::Std(StdHdr::custom(32, 16, false, 1, q)), seed ^ q as u64))));
+        v.push((format!("std+scal I 32x16 q{q}"), 2, encode_scal(&noise_intra(Hdr::Std(StdHdr::custom(32, 16, false, 1, q)), seed ^ q as u64))));
+    }
+    v.push(("garbage".into(), 1, vec![0x12, 0x34, 0x56]));
+    v
 }
 
 /// run a script alone, sequentially
@@ -271,7 +347,6 @@ pub fn run(tier: Tier) -> Report {
             }
         }
     }
-    use rayon::prelude::*;
     let outcomes = std::sync::Mutex::new(std::collections::BTreeSet::new());
     let thorough = tier.thorough();
     let n_inter: u64 = cfgs
@@ -330,6 +405,54 @@ pub fn run(tier: Tier) -> Report {
     rep.extra("configurations", json!(cfgs.len()));
     rep.extra("interleavings_executed", json!(n_inter));
     rep.extra("distinct_call_outcomes", json!(outcomes.len()));
+    // single-call purity: for every ordered pair (A, B) of one-picture letters, decode A on one fresh
+    // decoder and then B on another fresh decoder on the same thread; B must equal B decoded alone
+    {
+        let letters = purity_letters(seed);
+        let solo_obs: Vec<Obs> = letters
+            .iter()
+            .map(|(_, opts, bytes)| {
+                let (o, b) = (*opts, bytes.clone());
+                std::thread::spawn(move || {
+                    let mut st = H263State::new(options_from_bits(o));
+                    let out = decode_bytes(&mut st, &b);
+                    observe(&st, &out)
+                })
+                .join()
+                .unwrap()
+            })
+            .collect();
+        let n = letters.len();
+        let rep_ref = &rep;
+        let (lr, sr) = (&letters, &solo_obs);
+        let chunks: Vec<usize> = (0..n).collect();
+        chunks.par_iter().for_each(|&a| {
+            // a fresh OS thread per first letter: histories are deterministic
+            std::thread::scope(|sc| {
+                sc.spawn(move || {
+                    crate::evidence::install_panic_hook();
+                    for b in 0..n {
+                        let mut sa = H263State::new(options_from_bits(lr[a].1));
+                        let _ = decode_bytes(&mut sa, &lr[a].2);
+                        let mut sb = H263State::new(options_from_bits(lr[b].1));
+                        let out = decode_bytes(&mut sb, &lr[b].2);
+                        if observe(&sb, &out) != sr[b] {
+                            rep_ref.violation_lazy("C17/result-depends-on-previous-decode-on-thread", || {
+                                (
+                                    format!("'{}' decoded on a fresh decoder right after '{}' (another decoder, same thread) gives {:?}; alone it gives {:?}", lr[b].0, lr[a].0, observe(&sb, &out), sr[b]),
+                                    json!({"kind": "interleaving", "placement": "same-thread", "order": [0, 1], "instances": [{"name": lr[a].0, "options": lr[a].1, "calls": [hex(&lr[a].2)]}, {"name": lr[b].0, "options": lr[b].1, "calls": [hex(&lr[b].2)]}]}),
+                                )
+                            });
+                        }
+                    }
+                });
+            });
+        });
+        rep.add_transitions(2 * (n * n) as u64);
+        rep.add_states((n * n) as u64);
+        rep.extra("purity_letters", json!(n));
+        rep.extra("purity_ordered_pairs", json!(n * n));
+    }
     // fresh processes: who touches the lazily initialised option masks first
     let exe = std::env::current_exe().expect("exe");
     let mut n_child = 0u64;
@@ -403,7 +526,7 @@ pub fn run(tier: Tier) -> Report {
     }
     rep.extra("synchronisation_inventory", inv);
     rep.set_rule(
-        "instances with their own histories (6 scripts of 3 calls: I/P/D, rejected mid-picture inputs, prediction without reference, both modes, all option sets): every interleaving (multiset permutation) of the calls of every pair and of triples of scripts, executed under an explicit scheduler on one thread and with one OS thread per instance (token passing); every instance's observations (Ok/Err, hash of picture+header after each call) must equal its solo run; first-initialisation order in fresh child processes; 16 fresh instances per script (hash seeds: sampling); free-running threads (sampling); non-trivial = every interleaving (two or more instances)",
+        "instances with their own histories (7 scripts of 3 calls: I/P/D, rejected mid-picture inputs, prediction without reference, both modes, all option sets): every interleaving (multiset permutation) of the calls of every pair and of triples of scripts, executed under an explicit scheduler on one thread and with one OS thread per instance (token passing); every instance's observations (Ok/Err, hash of picture+header after each call) must equal its solo run; every ordered pair of ~90 one-picture letters decoded back to back on one thread by two fresh decoders (single-call purity); first-initialisation order in fresh child processes; 16 fresh instances per script (hash seeds: sampling); free-running threads (sampling); non-trivial = every interleaving (two or more instances)",
     );
     rep.assume("the crates contain no lock, atomic, channel, unsafe or static mut (inventory in the evidence), so a call on one instance has no scheduling point visible to a controlled scheduler: interleavings are explored at call granularity");
     rep
